@@ -94,9 +94,10 @@ type Observed struct {
 	Gor   int                  `json:"goroutines_delta"`
 }
 type Seq struct {
-	ID    int     `json:"id"`
-	Bulk  int     `json:"bulk"`
-	Stmts []VStmt `json:"stmts"`
+	ID    int                  `json:"id"`
+	Bulk  int                  `json:"bulk"`
+	Prev  map[string][]VTriple `json:"prev,omitempty"` // store the first reported statement starts from (default: empty)
+	Stmts []VStmt              `json:"stmts"`
 }
 
 // ---------------------------------------------------------------- blank-node numbering
@@ -596,4 +597,108 @@ func (g *Gen) Query(ctx context.Context, st storage.Store, ins []string, wb []st
 		q.Rows = append(q.Rows, m)
 	}
 	return q
+}
+
+// ---------------------------------------------------------------- fixed pool (exhaustive short sequences)
+
+func (b *Blanks) renderNode(n VNode) string {
+	if n.B == nil && n.T == "/_" {
+		return "_:" + n.I
+	}
+	return b.nodeText(n)
+}
+
+// RenderTemplate prints a construct template from its structure.
+func (b *Blanks) RenderTemplate(tm []VClause) string {
+	var cls []string
+	for _, c := range tm {
+		s := c.SB
+		if c.S != nil {
+			s = b.renderNode(*c.S)
+		}
+		var ps []string
+		for _, p := range c.Pairs {
+			var pt, ot string
+			switch {
+			case p.P != nil:
+				pt = predText(*p.P)
+			case p.PB != "":
+				pt = p.PB
+			default:
+				pt = fmt.Sprintf("%q@[%s]", p.PID, p.PAB)
+			}
+			switch {
+			case p.O != nil && p.O.N != nil:
+				ot = b.renderNode(*p.O.N)
+			case p.O != nil:
+				ot = b.objText(*p.O)
+			case p.OB != "":
+				ot = p.OB
+			default:
+				ot = fmt.Sprintf("%q@[%s]", p.OID, p.OAB)
+			}
+			ps = append(ps, pt+" "+ot)
+		}
+		cls = append(cls, s+" "+strings.Join(ps, " ; "))
+	}
+	return strings.Join(cls, " . ")
+}
+
+func mkConstruct(b *Blanks, add bool, tm []VClause, outs, ins []string, pat pattern) VStmt {
+	kw, into := "CONSTRUCT", "INTO"
+	if !add {
+		kw, into = "DECONSTRUCT", "IN"
+	}
+	text := fmt.Sprintf("%s { %s } %s %s FROM %s WHERE { %s };", kw, b.RenderTemplate(tm), into, strings.Join(outs, ", "), strings.Join(ins, ", "), pat.text)
+	return VStmt{Kind: "construct", Add: add, Tmpl: tm, Outs: outs, Ins: ins, WB: pat.wb, Text: text, Note: pat.text}
+}
+
+func mkData(b *Blanks, kind string, gs []string, ts []VTriple) VStmt {
+	var tt []string
+	for _, t := range ts {
+		tt = append(tt, b.TripleText(t))
+	}
+	kw := "INSERT DATA INTO "
+	if kind == "delete" {
+		kw = "DELETE DATA FROM "
+	}
+	return VStmt{Kind: kind, Gs: gs, Ts: ts, Text: kw + strings.Join(gs, ", ") + " { " + strings.Join(tt, " . ") + " };"}
+}
+
+func lit(s string) *VObj    { return &VObj{L: &s} }
+func nobj(n VNode) *VObj    { return &VObj{N: &n} }
+func ipred(id string) VPred { return VPred{ID: id} }
+
+// PoolPrefix builds the store every pool sequence starts from; Pool is the 12-statement pool.
+func PoolPrefix(b *Blanks) []VStmt {
+	ua, ub, tc := constNodes[0], constNodes[1], constNodes[2]
+	a0 := anchors[0]
+	return []VStmt{
+		{Kind: "create", Gs: []string{"?a", "?b"}, Text: "CREATE GRAPH ?a, ?b;"},
+		mkData(b, "insert", []string{"?a"}, []VTriple{
+			{S: ua, P: ipred("p"), O: *nobj(ub)}, {S: ub, P: ipred("p"), O: *lit(`"1"^^type:int64`)},
+			{S: ub, P: ipred("q"), O: *nobj(tc)}, {S: ua, P: VPred{ID: "r", A: &a0}, O: *nobj(ub)}}),
+	}
+}
+
+func Pool(b *Blanks) []VStmt {
+	ua, ub, tc := constNodes[0], constNodes[1], constNodes[2]
+	pso := patterns[1]
+	p2 := ipred("p2")
+	pp := ipred("p")
+	pq := ipred("q")
+	return []VStmt{
+		mkData(b, "insert", []string{"?b"}, []VTriple{{S: ua, P: ipred("p"), O: *nobj(tc)}}),
+		mkData(b, "delete", []string{"?a"}, []VTriple{{S: ua, P: ipred("p"), O: *nobj(ub)}}),
+		{Kind: "create", Gs: []string{"?c"}, Text: "CREATE GRAPH ?c;"},
+		{Kind: "drop", Gs: []string{"?b"}, Text: "DROP GRAPH ?b;"},
+		mkConstruct(b, true, []VClause{{SB: "?s", Pairs: []VPop{{P: &p2, OB: "?o"}}}}, []string{"?b"}, []string{"?a"}, pso),
+		mkConstruct(b, true, []VClause{{SB: "?s", Pairs: []VPop{{P: &pp, OB: "?o"}, {P: &pq, O: nobj(ua)}}}}, []string{"?b"}, []string{"?a"}, pso),
+		mkConstruct(b, false, []VClause{{SB: "?s", Pairs: []VPop{{P: &pp, OB: "?o"}}}}, []string{"?a"}, []string{"?b"}, pso),
+		mkConstruct(b, true, []VClause{{SB: "?o", Pairs: []VPop{{P: &pp, OB: "?s"}}}}, []string{"?a"}, []string{"?a"}, pso),
+		mkConstruct(b, true, []VClause{{SB: "?s", Pairs: []VPop{{P: &pp, OB: "?o"}}}}, []string{"?c"}, []string{"?a"}, pso),
+		mkConstruct(b, true, []VClause{{SB: "?s", Pairs: []VPop{{PID: "w", PAB: "?t", PT: true, OB: "?o"}}}}, []string{"?b"}, []string{"?a"}, patterns[2]),
+		mkData(b, "insert", []string{"?a", "?c"}, []VTriple{{S: tc, P: ipred("q"), O: *nobj(ua)}}),
+		mkConstruct(b, true, []VClause{{S: &VNode{T: "/_", I: "v"}, Pairs: []VPop{{P: &pp, OB: "?s"}}}}, []string{"?b"}, []string{"?b"}, patterns[7]),
+	}
 }
